@@ -112,7 +112,9 @@ func main() {
 	}
 	fmt.Printf("instrumented: %d yields, %d lock seams\n", nYields, nLocks)
 	if nLocks == 0 {
-		die(fmt.Errorf("no lock operation found to route through the simulator; the tree no longer matches what the C07 check knows how to control"))
+		// e.g. a tree that synchronises with atomics only: schedule points are
+		// still everywhere; the lock-related reach probes are switched off
+		fmt.Println("warning: no lock operation found to route through the simulator")
 	}
 }
 
